@@ -65,6 +65,8 @@ pub struct Inner {
     /// unless the caller awaits each one, as a backend with several writer threads allows)
     pub write_delay_pattern: Vec<u64>,
     pub delayed_calls: u64,
+    /// a mutating call that hits an injected failure reports it this many (tokio) milliseconds later (0 = at once)
+    pub fail_latency_ms: u64,
 }
 
 /// Process-wide order of successful storage writes (all stores, all threads).
@@ -166,6 +168,13 @@ impl ModelStore {
         }
     }
 
+    async fn fail_latency(&self) {
+        let d = self.inner.lock().fail_latency_ms;
+        if d > 0 {
+            tokio::time::sleep(std::time::Duration::from_millis(d)).await;
+        }
+    }
+
     async fn maybe_park(&self, park: bool) {
         let latency = self.inner.lock().write_latency_ms;
         if latency > 0 {
@@ -240,6 +249,7 @@ impl Storage for ModelStore {
             g.removed_live += removed_live;
         }
         if fail {
+            self.fail_latency().await;
             return Err(BulkMutationError::new(StoreError::Injected, done));
         }
         self.maybe_park(park).await;
@@ -249,7 +259,10 @@ impl Storage for ModelStore {
     async fn put(&self, keyspace: &str, document: Document) -> Result<(), Self::Error> {
         self.pre_delay().await;
         match self.gate()? {
-            Gate::Fail(_) => Err(StoreError::Injected),
+            Gate::Fail(_) => {
+                self.fail_latency().await;
+                Err(StoreError::Injected)
+            },
             Gate::Proceed { park } => {
                 {
                     let mut g = self.inner.lock();
@@ -296,6 +309,7 @@ impl Storage for ModelStore {
             }
         }
         if fail {
+            self.fail_latency().await;
             return Err(BulkMutationError::new(StoreError::Injected, done));
         }
         self.maybe_park(park).await;
@@ -305,7 +319,10 @@ impl Storage for ModelStore {
     async fn mark_as_tombstone(&self, keyspace: &str, doc_id: Key, timestamp: HLCTimestamp) -> Result<(), Self::Error> {
         self.pre_delay().await;
         match self.gate()? {
-            Gate::Fail(_) => Err(StoreError::Injected),
+            Gate::Fail(_) => {
+                self.fail_latency().await;
+                Err(StoreError::Injected)
+            },
             Gate::Proceed { park } => {
                 {
                     let mut g = self.inner.lock();
@@ -352,6 +369,7 @@ impl Storage for ModelStore {
             }
         }
         if fail {
+            self.fail_latency().await;
             return Err(BulkMutationError::new(StoreError::Injected, done));
         }
         self.maybe_park(park).await;
